@@ -9,7 +9,7 @@ from pygen import write_pkg
 from runner import Opts, run_many
 
 PKG = "walkpk"
-BASE = "class BaseA:\n    pass\n\n\nclass BaseB:\n    pass\n"
+BASE = "from typing import Generic, TypeVar\n\nTB = TypeVar(\"TB\")\n\n\nclass BaseA:\n    pass\n\n\nclass BaseB:\n    pass\n\n\nclass GenBase(Generic[TB]):\n    pass\n"
 
 
 def node_src(n, ind="") -> list[str]:
@@ -17,7 +17,7 @@ def node_src(n, ind="") -> list[str]:
     L = []
     if k == "class":
         sup = next((f[6:] for f in flags if f.startswith("super-")), "none")
-        bases = {"none": "", "one": "(BaseA)", "two": "(BaseA, BaseB)", "aliased": "(AliasA)"}[sup]
+        bases = {"none": "", "one": "(BaseA)", "two": "(BaseA, BaseB)", "aliased": "(AliasA)", "subscripted": "(GenBase[int])"}[sup]
         L.append(f"{ind}class {name}{bases}:")
         body = []
         for c in n["ch"]:
@@ -61,7 +61,7 @@ def node_src(n, ind="") -> list[str]:
 
 
 def module_src(m) -> str:
-    L = ["from enum import Enum, Flag, IntEnum, IntFlag, StrEnum", "import functools", "from typing import overload", f"from {PKG}.basemod import BaseA, BaseB", f"from {PKG}.basemod import BaseA as AliasA", ""]
+    L = ["from enum import Enum, Flag, IntEnum, IntFlag, StrEnum", "import functools", "from typing import overload", f"from {PKG}.basemod import BaseA, BaseB, GenBase", f"from {PKG}.basemod import BaseA as AliasA", ""]
     for c in m["ch"]:
         L += node_src(c)
     return "\n".join(L) + "\n"
